@@ -358,7 +358,9 @@ class NetworkService(ModelElement):
         """
         assert interface is not None
 
-        peers = interface.get_peers()
+        # only the service-side port created by connect_interface() is ours to remove,
+        # an interface joined to another node interface by an explicit link is not connected to a service
+        peers = interface.get_peers(itype=InterfaceType.ServicePort)
         if peers is None or len(peers) == 0:
             return
 
